@@ -1,6 +1,7 @@
 import Driver.CondOps
 import Driver.EncOps
 import Driver.SStrOps
+import Driver.ModOps
 open Lean Driver
 
 def dispatch (op : String) (j : Json) : Except String Json :=
@@ -14,6 +15,7 @@ def dispatch (op : String) (j : Json) : Except String Json :=
   | "sstr.slice" => sstrSlice j
   | "field.case" => fieldCase j
   | "field.batch" => fieldBatch j
+  | "mod.apply" => modApply j
   | "ping" => pure (Json.mkObj [("pong", true)])
   | _ => throw s!"unknown op {op}"
 
